@@ -38,6 +38,10 @@ CMPOPS = {"Gt": ">", "Ge": ">=", "Lt": "<", "Le": "<=", "Eq": "==", "Ne": "!="}
 DESUGAR_NAMES = {"val", "residual", "iter", "__next", "args", "e", "err"}
 
 
+INT_WIDTH = {"u8": 8, "u16": 16, "u32": 32, "u64": 64, "u128": 128, "usize": 64,
+             "i8": 8, "i16": 16, "i32": 32, "i64": 64, "i128": 128, "isize": 64}
+
+
 def short(name):
     """last path segments for display"""
     return name
@@ -490,6 +494,15 @@ class FnView:
         v._expr_cache = {}
         return v
 
+    def with_narrow(self):
+        """view in which a value-truncating integer cast (`x as u32` with x: u64) is kept as
+        ("narrow", from, to, x) instead of being read as the identity"""
+        import copy
+        v = copy.copy(self)
+        v.keep_narrow = True
+        v._expr_cache = {}
+        return v
+
     def _vname(self, local):
         n = self.b.local_name(local)
         return n if n else f"_{local}"
@@ -536,6 +549,12 @@ class FnView:
             return ("un", rv.a, x)
         if rv.op == "cast":
             x = self.expr(rv.ops[0], depth + 1)
+            if rv.a == "IntToInt" and getattr(self, "keep_narrow", False):
+                o = rv.ops[0]
+                st = self.b.ty(o.place.local) if o.place is not None and not o.place.proj else None
+                dt = self.b._types[rv.extra] if isinstance(rv.extra, int) else None
+                if st in INT_WIDTH and dt in INT_WIDTH and INT_WIDTH[st] > INT_WIDTH[dt] and x[0] not in ("int", "k"):
+                    return ("narrow", st, dt, x)
             if rv.a in ("IntToInt", "PointerCoercion", "PtrToPtr", "Transmute"):
                 return x
             return ("cast", rv.a, x)
